@@ -13,7 +13,8 @@
 (* kind = "e2e": the statement executed on the real engine, single-node    *)
 (*   and through execute_any_distributed over adversarially placed rows:   *)
 (*   every distributed answer must be allowed by SqlSem for (q, db) or be   *)
-(*   the single-node answer.  SENS lines report placements on which the    *)
+(*   the single-node answer (records whose single-node answer SqlSem does  *)
+(*   not allow are reported as SINGLE and not judged).  SENS lines report placements on which the    *)
 (*   naive strategy (concatenate the shards' own answers) is NOT an        *)
 (*   allowed answer, i.e. where the merge step matters.                    *)
 (* Every record is judged; verdicts are printed as REJECT / SENS / SINGLE  *)
@@ -44,7 +45,9 @@ JudgeE2E(r) ==
   IN /\ (IF sok THEN TRUE ELSE PrintT(<<"SINGLE", ToJson([id |-> r.id])>>))
      /\ \A j \in DOMAIN r.dist :
           LET o == r.dist[j] IN
-          /\ (IF Allowed(r.q, env, o.rows) THEN TRUE
+          \* a statement the LOCAL engine answers wrongly on this data is outside this sub-model (other properties own it)
+          /\ (IF ~sok THEN TRUE
+              ELSE IF Allowed(r.q, env, o.rows) THEN TRUE
               ELSE IF Same(r.q, o.rows, r.single) THEN TRUE
               ELSE PrintT(<<"REJECT", ToJson([id |-> r.id, kind |-> "e2e", n |-> o.n, want |-> Answer(r.q, env)])>>))
           /\ (IF o.ptable = "none" THEN TRUE
